@@ -34,10 +34,16 @@ PROPS = {
         ],
     },
     "C11": {
-        "module": "GoatProofs.C11",
-        "theorems": ["Goat.C11.slash_amount", "Goat.C11.slash_le_holding"],
+        "module": ["GoatProofs.C11", "GoatProofs.C11H"],
+        "theorems": ["Goat.C11.slash_amount", "Goat.C11.slash_le_holding",
+                     "Goat.C11H.lockOne_spec", "Goat.C11H.lock_spec", "Goat.C11H.unlockCore_spec", "Goat.C11H.unlockOne_exact", "Goat.C11H.unlock_spec",
+                     "Goat.C11H.slashAll_spec", "Goat.C11H.handleVotes_spec", "Goat.C11H.handleEvidence_spec", "Goat.C11H.dequeueMature_spec",
+                     "Goat.C11H.beginBlock_spec", "Goat.C11H.dequeue_spec", "Goat.C11H.processRequests_spec", "Goat.C11H.endBlocker_frame",
+                     "Goat.C11H.apply_spec", "Goat.C11H.history", "Goat.C11H.conservation", "Goat.C11H.nonnegativity", "Goat.C11H.conservation_from_genesis"],
         "streams": [{"name": "locking", "quick": 2500, "thorough": 40000, "seeds": 16}],
-        "assumptions": ["amounts are 256-bit EVM words; totals stay below 2^256 (the overflow panic is modelled as a failed transaction)"],
+        "assumptions": ["amounts are 256-bit EVM words; totals stay below 2^256 (the overflow panic is modelled as a failed transaction / failed hook, known finding F12)",
+                        "the denomination of an unlock request is the one derived from its token address (types.TokenDenom; hypothesis ReqOK, shown necessary by an example)",
+                        "validator store keys are unique and holdings are canonical sdk.Coins (WF; properties of the KV store and of sdk.Coins), slash fractions < 1 (Params.Validate)"],
     },
     "C12": {
         "module": "GoatProofs.C12",
@@ -205,8 +211,8 @@ PROPS = {
         "module": "GoatProofs.C19",
         "theorems": ["Goat.C19.commitTx_failed", "Goat.C19.failed_msg_changes_nothing", "Goat.C19.failed_tx_changes_nothing",
                      "Goat.C19.ante_rejects_before_handler", "Goat.C19.readonly_ops"],
-        "streams": [{"name": "app-malformed", "quick": 900, "thorough": 6000, "seeds": 12}, {"name": "app", "quick": 700, "thorough": 4000, "seeds": 6},
-                    {"name": "app-proposal", "quick": 900, "thorough": 5000, "seeds": 8}, {"name": "relayer", "quick": 1200, "thorough": 8000, "seeds": 6}],
+        "streams": [{"name": "app-malformed", "quick": 900, "thorough": 6000, "seeds": 12, "quick_seeds": 2}, {"name": "app", "quick": 700, "thorough": 4000, "seeds": 6},
+                    {"name": "app-proposal", "quick": 700, "thorough": 5000, "seeds": 8, "quick_seeds": 4}, {"name": "relayer", "quick": 1200, "thorough": 8000, "seeds": 6}],
         "assumptions": ["'cannot crash' is a statement about the Go runtime: decided by running the real application on malformed inputs (a crash of the harness process is the failing input); the model represents recovered panics as outcomes",
                         "per-transaction rollback is cosmos-sdk baseapp's (real code in the app streams)"],
         "partial": "crash freedom is sampled (byte-level mutations of every message type and of proposals), not proved; the rollback half is proved on the model",
